@@ -54,7 +54,7 @@ func main() {
 		CaseTimeout: 120 * time.Second,
 		Floors: map[string]int64{"shutdown_scenarios": 100, "acked_in_window_before_final_sync": 150, "refused_after_final_sync_began": 150, "inflight_finalized_after_close": 40, "expected_present_checked": 1500,
 			"commit_scenarios": 100, "commit_live_objects_checked": 1000, "power_loss_restarts": 100,
-			"daemon_graceful_restarts": 10, "daemon_restart_objects_checked": 60, "trace_state_versions": 10, "trace_declared_valid_writes_checked": 20, "trace_blocks_fsyncs": 10},
+			"daemon_graceful_restarts": 10, "daemon_restart_objects_checked": 20, "trace_state_versions": 10, "trace_declared_valid_writes_checked": 20, "trace_blocks_fsyncs": 10},
 		Assumptions: []string{"graceful shutdown loses nothing that was written (intact medium); the power-loss-after-shutdown variant drops every data write not covered by a completed sync and keeps index writes", "a process crash loses nothing that was written"},
 		Race:        true,
 		Body:        body,
@@ -199,6 +199,30 @@ func daemonCase(w *run.Worker, c *run.Case) {
 				} else if strings.HasSuffix(ack, " WRONG") {
 					c.Violation("daemon.Get:wrong-bytes", "%s", ack)
 				}
+			}
+			if r.Bool() {
+				// Shutdown requested right behind a burst of acknowledged
+				// uploads (a sync round may be in flight): "an upload
+				// acknowledged before a graceful shutdown is readable after
+				// the restart". The burst is at most half a block, so its
+				// objects sit in the two newest blocks and cannot have been
+				// rotated out; what the burst may have rotated out of the
+				// oldest block is not expected any more.
+				served = map[uint64]bool{}
+				budget := block / 2
+				for k := r.Range(2, 4); k > 0 && budget > 0; k-- {
+					next++
+					o := ob{next, r.Range(1, block/8)}
+					if o.size > budget {
+						break
+					}
+					budget -= o.size
+					if ack, err := p.Cmd(fmt.Sprintf("PUT %d %d", o.id, o.size)); err == nil && strings.HasSuffix(ack, " OK") {
+						objs = append(objs, o)
+						served[o.id] = true
+					}
+				}
+				w.Count("daemon_quits_right_behind_uploads", 1)
 			}
 			if err := p.Quit(); err != nil {
 				c.Violation("daemon:graceful-shutdown-failed", "the daemon did not terminate gracefully: %v", err)
